@@ -435,6 +435,32 @@ func (e *Enc) axioms() {
 	}
 }
 
+// Parked: the thread of blocking node n stands before n (its predecessor
+// occurred under the right outcome, n did not).
+func (e *Enc) Parked(n *Node) string {
+	var pre string
+	switch {
+	case n.Parent != nil:
+		pre = "(and " + n.Parent.X + " " + n.Guard + ")"
+	case n.Thread == 0:
+		pre = "true"
+	default:
+		pre = e.Spawned(n.Thread)
+	}
+	return "(and " + pre + " (not " + n.X + "))"
+}
+
+// BlockingNodes lists recv/sel/wait nodes.
+func (e *Enc) BlockingNodes() []*Node {
+	var out []*Node
+	for _, n := range e.Nodes {
+		if isBlocking(n.Ev.Kind) {
+			out = append(out, n)
+		}
+	}
+	return out
+}
+
 // Text returns declarations + Φ as SMT-LIB commands.
 func (e *Enc) Text() string {
 	var sb strings.Builder
